@@ -184,6 +184,15 @@ def check_case(case) -> Result:
     if not (a3 == a):
         r.fail('adding the modification dictionary to the stripped peptide reproduces it', 'C20/annotation-pop-add-roundtrip', s=s,
                got=a3.serialize())
+    # ... and the dictionary popped from the annotation is accepted by the string-level add_mods as well
+    try:
+        rebuilt2 = pt.add_mods(p['seq'], a.copy().pop_mods())
+        if not (pt.parse(rebuilt2) == a):
+            r.fail('adding the modification dictionary to the stripped peptide reproduces it', 'C20/add_mods-of-annotation-pop_mods', s=s,
+                   got=rebuilt2)
+    except ValueError as e:
+        r.fail('adding the modification dictionary to the stripped peptide reproduces it', 'C20/add_mods-of-annotation-pop_mods', s=s,
+               error=str(e)[:120])
     if pt.strip_mods(s) != p['seq']:
         r.fail('stripping removes every modification and nothing else', 'C20/strip_mods', s=s, got=pt.strip_mods(s))
     st_a = a.strip()
